@@ -27,9 +27,14 @@ def match_pipeline(prop, clause, prog, obs):
         if 'keys_exc' in m and obs['keys']['exc'] != m['keys_exc']:
             continue
         if 'gi_exc' in m:
+            # every in-range ds[i] that disagrees with iteration raises exactly
+            # this exception (and at least one does)
             n = obs['len']['n']
-            inrange = [g for g in obs['gi'] if -n <= g['i'] < n]
-            if not inrange or any(g['r']['exc'] != m['gi_exc'] for g in inrange):
+            items = obs['it1']['items']
+            by_i = {g['i']: g['r'] for g in obs['gi']}
+            bad = [by_i[i] for i in range(min(n, len(items)))
+                   if i in by_i and not (by_i[i]['ok'] and by_i[i]['v'] == items[i])]
+            if not bad or any(r['ok'] or r['exc'] != m['gi_exc'] for r in bad):
                 continue
         return f
     return None
